@@ -25,7 +25,8 @@ def cuts(g, cfg, line):
 def run(tier):
     c = Check("C06", tier)
     exe = driver("asan")
-    cfgs, beh = model_behaviours(c, tier, cfgsel=[4, 6, 9, 10, 11, 12])
+    # 17/18: growing bit sets (vector<bool>, DynamicBitset; 18 with unsetFlag), 19: key-value container (std::map)
+    cfgs, beh = model_behaviours(c, tier, cfgsel=[4, 6, 9, 10, 11, 12, 17, 19] if tier == "quick" else [4, 6, 9, 10, 11, 12, 17, 18, 19])
     script = os.path.join(c.wd, "replay.ndjson")
     n = behaviours_script(cfgs, beh, script)
     c.notes.append("R: %d distinct (configuration, argv) behaviours with container destinations replayed" % n)
@@ -43,7 +44,7 @@ def run(tier):
             for variant in (line, cuts(g, cfg, line), cuts(g, cfg, line)):
                 acts.append(eval_action(g.spell_line(cfg, variant), tag={"k": "line", "line": line_json(variant)}))
             for kind, words in arggen.mutations(g, cfg, line):
-                if kind in ("too_many_values", "too_few_values", "array_overflow", "bad_value", "disjoint_intersect"):
+                if kind in ("too_many_values", "too_few_values", "array_overflow", "bad_value", "disjoint_intersect", "dup_key"):
                     acts.append(eval_action(words, tag={"k": "mut", "m": kind}))
         blocks.append((cfg, acts))
     script2 = os.path.join(c.wd, "random.ndjson")
@@ -51,7 +52,9 @@ def run(tier):
     rej, tr = run_script(c, exe, script2, "T")
     decl_consistency(c, tr, "T")
     return finish_args(c, ["container kinds: vector/list/deque/forward_list/set/multiset/stack/queue/priority_queue<int>, vector<string>, "
-                           "int[3], std::array<int,3>, std::tuple<int,string,int>, std::bitset<8>; key-value containers are not modelled"])
+                           "int[3], std::array<int,3>, std::tuple<int,string,int>, std::bitset<8>, std::vector<bool>, container::DynamicBitset (projection: "
+                           "positions that are set; negative and beyond-int positions left open), std::map<std::string,int> (default pair format, no "
+                           "checks/formats); other key-value containers and pair formats are not modelled"])
 
 
 if __name__ == "__main__":
